@@ -108,6 +108,17 @@ def gen(tier, seed, boost=False):
             s, d = rng.randint(0, 10 ** 6), rng.choice(DEPTHS)
             for e in range(3):
                 yield _mk_case('forest', X, y, kind='forest', depth=d, seed=s, est=e)
+        if it % 2 == 0:
+            # bootstrapped estimators on an integer grid: an out-of-bag object can sit exactly on a split threshold
+            # (in-bag values 1 and 3, threshold 2.0, out-of-bag value 2) - the tree sends x <= t to the left
+            n2 = rng.randint(5, 10)
+            Xg = [[float(rng.randrange(6)) for _ in range(rng.randint(1, 2))] for _ in range(n2)]
+            Xg = [r + [r[0]] * (len(Xg[0]) - len(r)) for r in Xg]
+            Xg = [r[:len(Xg[0])] for r in Xg]
+            yg = [float(rng.choice(ygrid)) for _ in range(n2)]
+            s2 = rng.randint(0, 10 ** 6)
+            for e in range(3):
+                yield _mk_case('forest-grid', Xg, yg, kind='forest', depth=None, seed=s2, est=e)
         if it % 4 == 1:
             for mut in ('orphan', 'feature', 'contradict', 'nonsep'):
                 yield _mk_case('malformed', X, y, depth=rng.choice((2, 3, None)), seed=rng.randint(0, 10 ** 6), mut=mut)
